@@ -279,7 +279,7 @@ func init() {
 				return true
 			})
 			c.Fact("sessions.stateless_header_reads", map[string]int{"total": reads, "under_legacy_flag": guarded})
-			c.Fact("sessions.stateless_calls", callSeq(c, fd.Body, []string{"lookupSession", "GetSessionID", "connectStreamable", "Close", "ServeHTTP", "serveStatelessLegacyDELETE"}))
+			c.Fact("sessions.stateless_calls", callSeq(c, fd.Body, []string{"lookupSession", "GetSessionID", "connectStreamable", "Close", "ServeHTTP", "serveStatelessLegacyDELETE", "serveEphemeral"}))
 		}
 		if fd := c.Func(dir, "StreamableHTTPHandler", "serveStateful"); fd != nil {
 			var def *ast.CaseClause
@@ -298,7 +298,13 @@ func init() {
 		}
 
 		// --- structural fact: the transport/session is reached only through lookupSession's result
-		interesting := []string{"lookupSession", "startPOST", "endPOST", "ServeHTTP", "Close", "GetSessionID", "connectStreamable", "AfterFunc", "stopTimer"}
+		// a temporary session (stateless endpoint, or GetSessionID returned ""): served once, then closed
+		if fd := c.Func(dir, "", "serveEphemeral"); fd != nil {
+			c.Fact("sessions.ephemeral_calls", callSeq(c, fd.Body, []string{"Close", "ServeHTTP", "close", "Wait", "lookupSession"}))
+		} else {
+			c.Fact("sessions.ephemeral_calls", []string{"<serveEphemeral not found>"})
+		}
+		interesting := []string{"lookupSession", "startPOST", "endPOST", "ServeHTTP", "Close", "GetSessionID", "connectStreamable", "AfterFunc", "stopTimer", "serveEphemeral"}
 		shape := map[string]any{}
 		for _, fn := range []string{"serveStatefulGET", "serveStatefulPOST", "serveStatefulDELETE"} {
 			fd := c.Func(dir, "StreamableHTTPHandler", fn)
@@ -481,6 +487,137 @@ func init() {
 			} else {
 				c.Fact("sessions.onclose_calls", []string{"<missing>"})
 			}
+		}
+
+		// --- collaborator failures: what the handler / transport answer when the event store fails
+		// (a) Transport.Connect failed (EventStore.Open of the standalone stream): every
+		//     `if err != nil` that follows a connectStreamable call in the handler answers the same status
+		connSt := []int{}
+		for _, fn := range []string{"serveStatefulPOST", "serveStateless"} {
+			fd := c.Func(dir, "StreamableHTTPHandler", fn)
+			if fd == nil {
+				continue
+			}
+			var scan func(list []ast.Stmt)
+			scan = func(list []ast.Stmt) {
+				for i, s := range list {
+					if as, ok := s.(*ast.AssignStmt); ok && len(as.Rhs) == 1 && strings.HasPrefix(c.Src(as.Rhs[0]), "connectStreamable(") {
+						if i+1 < len(list) {
+							if is, ok := list[i+1].(*ast.IfStmt); ok && c.Src(is.Cond) == "err != nil" {
+								connSt = append(connSt, httpErrorsIn(c, is.Body)...)
+							}
+						}
+					}
+					switch st := s.(type) {
+					case *ast.IfStmt:
+						scan(st.Body.List)
+						if eb, ok := st.Else.(*ast.BlockStmt); ok {
+							scan(eb.List)
+						}
+					case *ast.BlockStmt:
+						scan(st.List)
+					}
+				}
+			}
+			scan(fd.Body.List)
+		}
+		same := len(connSt) > 0
+		for _, x := range connSt {
+			same = same && x == connSt[0]
+		}
+		get("connectFailed", first(connSt), same)
+		c.Fact("sessions.connect_failure_statuses", connSt)
+		// (b) the stream of a POST's calls cannot be opened: servePOST answers before anything is handed over
+		if fd := c.Func(dir, "streamableServerConn", "servePOST"); fd != nil {
+			okB := false
+			for i, s := range fd.Body.List {
+				if as, ok := s.(*ast.AssignStmt); ok && len(as.Rhs) == 1 && strings.HasPrefix(c.Src(as.Rhs[0]), "c.newStream(") && i+1 < len(fd.Body.List) {
+					if is, ok := fd.Body.List[i+1].(*ast.IfStmt); ok && c.Src(is.Cond) == "err != nil" {
+						e := httpErrorsIn(c, is.Body)
+						_, ret := is.Body.List[len(is.Body.List)-1].(*ast.ReturnStmt)
+						get("storeOpenFailed", first(e), len(e) == 1 && ret)
+						okB = true
+					}
+				}
+			}
+			if !okB {
+				get("storeOpenFailed", 0, false)
+			}
+		} else {
+			get("storeOpenFailed", 0, false)
+		}
+		// (c) replay impossible: acquireStream answers inside the After loop
+		if fd := c.Func(dir, "streamableServerConn", "acquireStream"); fd != nil {
+			okC := false
+			ast.Inspect(fd.Body, func(x ast.Node) bool {
+				if rs, ok := x.(*ast.RangeStmt); ok && strings.Contains(c.Src(rs.X), "eventStore.After(") {
+					if is := ifWithCond(c, rs.Body, "err != nil"); is != nil {
+						e := httpErrorsIn(c, is.Body)
+						get("replayFailed", first(e), len(e) == 1)
+						okC = true
+					}
+				}
+				return true
+			})
+			if !okC {
+				get("replayFailed", 0, false)
+			}
+		} else {
+			get("replayFailed", 0, false)
+		}
+		// (d) ServerSession.Close: the error of conn.Close() is kept in a variable and returned only
+		// by the LAST statement, after the onClose hook has run exactly under its once-guard: no return
+		// path skips the hook.  (The model's `closeDone` removes the entry on the error outcome too.)
+		if fd := c.Func(dir, "ServerSession", "Close"); fd != nil {
+			idxClose, idxHook, plain := -1, -1, false
+			returns := 0
+			ast.Inspect(fd.Body, func(x ast.Node) bool {
+				if _, ok := x.(*ast.FuncLit); ok {
+					return false
+				}
+				if _, ok := x.(*ast.ReturnStmt); ok {
+					returns++
+				}
+				return true
+			})
+			hookCond := ""
+			for i, s := range fd.Body.List {
+				if strings.Contains(c.Src(s), "ss.conn.Close()") && idxClose < 0 {
+					idxClose = i
+					if as, ok := s.(*ast.AssignStmt); ok && len(as.Lhs) == 1 && c.Src(as.Rhs[0]) == "ss.conn.Close()" {
+						plain = true
+					}
+				}
+				if is, ok := s.(*ast.IfStmt); ok && strings.Contains(c.Src(is.Body), "ss.onClose()") && idxHook < 0 {
+					idxHook = i
+					hookCond = c.Src(is.Cond)
+				}
+			}
+			_, lastIsReturn := fd.Body.List[len(fd.Body.List)-1].(*ast.ReturnStmt)
+			c.Fact("sessions.close_runs_onclose", map[string]any{
+				"conn_close_is_plain_assignment": plain,
+				"hook_follows_conn_close":        idxClose >= 0 && idxHook == idxClose+1,
+				"hook_guard":                     hookCond,
+				"returns":                        returns,
+				"only_return_is_last_statement":  returns == 1 && lastIsReturn,
+			})
+		} else {
+			c.Fact("sessions.close_runs_onclose", "<ServerSession.Close not found>")
+		}
+		// (e) closing the streamable server connection: done is closed first, the only error it can
+		// report is the event store's
+		if fd := c.Func(dir, "streamableServerConn", "Close"); fd != nil {
+			var rets []string
+			ast.Inspect(fd.Body, func(x ast.Node) bool {
+				if r, ok := x.(*ast.ReturnStmt); ok && len(r.Results) == 1 {
+					rets = append(rets, c.Src(r.Results[0]))
+				}
+				return true
+			})
+			c.Fact("sessions.conn_close", map[string]any{
+				"calls":   callSeq(c, fd.Body, []string{"Lock", "Unlock", "close", "SessionClosed"}),
+				"returns": rets,
+			})
 		}
 		keys := make([]string, 0, len(st))
 		for k := range st {
